@@ -33,8 +33,8 @@ EXCEPTIONS: Dict[Tuple[str, str], str] = {
 }
 # first-match sites whose key is assumed unique (printed as an assumption, not a finding)
 ASSUMED_UNIQUE: Dict[Tuple[str, str], str] = {
-    ("_modify.edit._add_other_section_contents", "module.sections"): "section names are unique within a module",
-    ("rewriting.RewritingContext._insert_function_stub", "self._module.sections"): "section names are unique within a module",
+    # (section lookups by name were listed here as "names are unique" until a module with two `.text` /
+    #  two `.mydata` sections showed the result varying between runs: they are findings now, F70)
     ("_modify.edit._add_return_edges_for_patch_calls", "new_cfg"): "the assembler emits at most one fallthrough edge per block (dict keyed by edge.source)",
 }
 
